@@ -30,6 +30,7 @@ func init() {
 			{"C05/challenge", "no-Authorization route unconditional; per-mechanism challenges registered with their routes; refusals answer 401 + WWW-Authenticate", c05Challenge},
 			{"C05/ntlm-accept", "the NTLM verifier reports Authenticated only over proof of a non-empty configured password (C14's accept-site rule, as it decides who reaches this endpoint)", func(c *Ctx) { c14AcceptSiteAs(c, "C05/ntlm-accept") }},
 			{"C05/spnego", "SPNEGO transposition copies the library's verdict and name", c05Spnego},
+			{"C05/ntlm-contexts", "the NTLM verifier remembers session contexts in the context cache only (C14's holder rule, as it gates this endpoint)", func(c *Ctx) { c14ContextHoldersAs(c, "C05/ntlm-contexts") }},
 			{"C05/ntlm-verifier", "the NTLM verifier keeps a server context only while a challenge is outstanding (C14's context rule, as it gates this endpoint)", func(c *Ctx) { c14ContextScopeAs(c, "C05/ntlm-verifier") }},
 		},
 	})
@@ -426,9 +427,19 @@ func c05BasicGate(c *Ctx) {
 		c.Bad(rule, key+" calls", cl.Pos(), "r.BasicAuth() / h.authenticate not found")
 		return
 	}
-	c.Check(strip(arg(authCall, 2)) == resultOf(ba, 0) && strip(arg(authCall, 3)) == resultOf(ba, 1) && recvOf(ba) == ssa.Value(cl.Params[1]), rule, key+" creds", authCall.Pos(), "the backend is asked about this request's Basic credentials", "the credentials sent to the backend are not this request's Basic user/password")
+	// which arguments of authenticate carry the user name and the password of this request
+	iu, ip := -1, -1
+	for i, a := range authCall.Call.Args {
+		if strip(a) == resultOf(ba, 0) && iu < 0 {
+			iu = i
+		} else if strip(a) == resultOf(ba, 1) && ip < 0 {
+			ip = i
+		}
+	}
+	c.Check(iu >= 0 && ip >= 0 && recvOf(ba) == ssa.Value(cl.Params[1]), rule, key+" creds", authCall.Pos(), "the backend is asked about this request's Basic credentials", "the credentials sent to the backend are not this request's Basic user/password")
+	verdict := resultOf(authCall, 0)
 	for i, nx := range nexts {
-		ok, why := mustPass(cl, nx, GTrue(isVal(authCall)))
+		ok, why := mustPass(cl, nx, GTrue(isVal(verdict)))
 		c.Check(ok, rule, fmt.Sprintf("%s next#%d", key, i), nx.Pos(), "the tunnel handler runs only over authenticated == true", "the tunnel handler is "+why+" of the backend's verdict")
 	}
 	for _, sc := range c.invokesInScope(cl, "SetUserName", 0) {
@@ -451,7 +462,7 @@ func c05BasicGate(c *Ctx) {
 	reqOK := false
 	if al, ok := strip(rpc.Call.Args[1]).(*ssa.Alloc); ok {
 		st := structFieldStores(al)
-		reqOK = first(st["Username"]) == ssa.Value(fn.Params[3]) && first(st["Password"]) == ssa.Value(fn.Params[4])
+		reqOK = iu >= 0 && ip >= 0 && iu < len(fn.Params) && ip < len(fn.Params) && first(st["Username"]) == ssa.Value(fn.Params[iu]) && first(st["Password"]) == ssa.Value(fn.Params[ip])
 	}
 	c.Check(reqOK, rule, shortFn(fn)+" request", rpc.Pos(), "request carries the given user and password", "the RPC request does not carry the submitted user name and password")
 	for i, r := range returnsOf(fn) {
@@ -461,6 +472,13 @@ func c05BasicGate(c *Ctx) {
 		}
 		b, f, ok := fieldLoad(strip(v))
 		good := ok && f.Name() == "Authenticated" && b == resultOf(rpc, 0)
+		if bv, isC := constBool(v); !good && isC && bv {
+			// `return true` behind a test of the backend's Authenticated
+			good, _ = mustPass(fn, r, GTrue(func(x ssa.Value) bool {
+				b2, f2, ok2 := fieldLoad(strip(x))
+				return ok2 && f2.Name() == "Authenticated" && b2 == resultOf(rpc, 0)
+			}))
+		}
 		okg, why := mustPass(fn, r, GErrNil(resultOf(rpc, 1)))
 		c.Check(good && okg, rule, fmt.Sprintf("%s return#%d", shortFn(fn), i), r.Pos(), "returns the backend's Authenticated, only when the RPC succeeded", "a non-false verdict that is not the backend's answer on the error-free edge ("+why+")")
 	}
@@ -546,7 +564,12 @@ func c05NtlmGateAs(c *Ctx, rule string) {
 			continue
 		}
 		rk := fmt.Sprintf("%s return#%d", fk, i)
-		c.Check(isRes("Authenticated")(v), rule, rk+" value", r.Pos(), "verdict = backend's Authenticated", "a non-false verdict that is not the backend's Authenticated field")
+		verdictOK := isRes("Authenticated")(v)
+		if b, isC := constBool(v); !verdictOK && isC && b {
+			// `return true` behind a test of the backend's Authenticated
+			verdictOK, _ = mustPass(fn, r, GTrue(isRes("Authenticated")))
+		}
+		c.Check(verdictOK, rule, rk+" value", r.Pos(), "verdict = backend's Authenticated", "a non-false verdict that is not the backend's Authenticated field")
 		ok1, w1 := mustPass(fn, r, GErrNil(resultOf(rpc, 1)))
 		c.Check(ok1, rule, rk+" rpc-ok", r.Pos(), "only when the RPC succeeded", "verdict "+w1+" of the RPC error")
 		ok2, w2 := mustPass(fn, r, GEq(isRes("NtlmMessage"), isEmpty))
